@@ -14,8 +14,9 @@ Line protocol of the cache model driver (used by `c07_model` and `c08_model`).
   `0 <reason>`.  `JL …` lines judge only C08's limit clause (entry count ≤ limit).
 
 Annotations on `store` lines (oracle answers recorded from the real allocator by the harness):
-`copyfail` → `StoreEnv.copyFails`; `cleared`, `bumped` → `lateFails`; `keys=<n>` → the number of
-`not_enough_memory()` answers `true` is chosen minimal such that the store ends with `n` entries.
+`copyfail` → `StoreEnv.copyFails`; `cleared`, `bumped` → `lateFails`; `nem=<0/1…>` → `lowMem`: what
+`not_enough_memory()` has to answer at the successive evaluations of `check_limits`' guard, computed by
+the harness from the buddy allocator's own state (largest free chunk < 10 % of the segment).
 -/
 namespace Cppcms.C07.Proto
 open Cppcms Cppcms.C07
@@ -63,9 +64,13 @@ def parseOp (w : List String) : Option (Op × List String) :=
   | "store" :: now :: k :: v :: ts :: d :: g :: ann =>
     match now.toInt?, parseHex k, parseVal v, parseTrigs ts, d.toInt?, parseGen g with
     | some now, some k, some v, some ts, some d, some g =>
+      let nem : List Bool := match ann.find? (·.startsWith "nem=") with
+        | some a => ((a.drop 4).toString.toList).map (· == '1')
+        | none => []
       let env : StoreEnv :=
         { copyFails := ann.contains "copyfail"
-          lateFails := if ann.contains "cleared" then some (ann.contains "bumped") else none }
+          lateFails := if ann.contains "cleared" then some (ann.contains "bumped") else none
+          lowMem := nem }
       some (.store now k v ts d g env, ann)
     | _, _, _, _, _, _ => none
   | ["fetch", now, k] =>
@@ -77,19 +82,6 @@ def parseOp (w : List String) : Option (Op × List String) :=
   | ["clear"] => some (.clear, [])
   | ["stats"] => some (.stats, [])
   | _ => none
-
-/-- choose the memory-pressure answers so that the store ends with `n` entries (minimal number of
-`true`s); `none` when no choice does -/
-def fitLowMem (s : State) (op : Op) (n : Nat) : Option Op :=
-  match op with
-  | .store now k v ts d g env =>
-    (List.range (s.size + 2)).findSome? fun m =>
-      let op' := Op.store now k v ts d g { env with lowMem := List.replicate m true }
-      if (step s op').1.size == n then some op' else none
-  | _ => none
-
-def keysAnn (ann : List String) : Option Nat :=
-  ann.findSome? fun a => if a.startsWith "keys=" then (a.drop 5).toString.toNat? else none
 
 def modelLine (st : DState) (w : List String) : DState × String :=
   match w with
@@ -104,9 +96,6 @@ def modelLine (st : DState) (w : List String) : DState × String :=
   | _ =>
     match st.cache, parseOp w with
     | some s, some (op, ann) =>
-      let op := match keysAnn ann with
-        | some n => (fitLowMem s op n).getD op
-        | none => op
       let (s', o) := step s op
       let extra := if ann.contains "copyfail" then " copyfail" else ""
       ({ st with cache := some s' }, s!"{outStr o}{extra} | {s'.size} {s'.trigCount}")
